@@ -35,12 +35,17 @@ def main(tier):
     jobs.append(dict(par=dict(stack="enc", seed=seed() + 152), stride_swaps=20 * (600 if tier == "quick" else 66000)))
     wd = workdir("c03")
     build("s20")
+    build("s64")
+    # the same jobs at CHUNK=64: several blocks (seek targets) and content bytes share a chunk, as at 128 KiB
+    njobs = len(jobs)
+    jobs = jobs + [dict(j, profile="s64") for j in jobs if "behaviours" in j]
 
     def one(i):
         jp = os.path.join(wd, f"jobs{i}.jsonl")
         op = os.path.join(wd, f"out{i}.json")
-        write_jsonl(jp, [jobs[i]])
-        mbt("s20", "tamper", jp, op, timeout=7200)
+        j = {k: x for k, x in jobs[i].items() if k != "profile"}
+        write_jsonl(jp, [j])
+        mbt(jobs[i].get("profile", "s20"), "tamper", jp, op, timeout=7200)
         return json.load(open(op))
 
     from concurrent.futures import ThreadPoolExecutor
